@@ -55,6 +55,11 @@ def initial_pool(seed):
         trees.append(penman.Tree(node, metadata=meta))
     g3 = layout.interpret(trees[2], MODEL)
     g4 = layout.interpret(trees[3], MODEL)
+    if rng.random() < 0.5:
+        # a graph built by hand: no markers at all, no explicit top, triples in an arbitrary order (top triple first)
+        rest = list(g4.triples[1:])
+        rng.shuffle(rest)
+        g4 = penman.Graph(list(g4.triples[:1]) + rest)
     return [trees[0], trees[1], g3, g4]
 
 
